@@ -125,6 +125,7 @@ type Unit struct {
 	closures map[string]Val
 	curFrame *Frame
 	callFrame *Frame // frame of the call being executed (lock lookups through pointer fields)
+	leakN     int    // formatting-sink questions generated so far (leak sweep)
 	mode     string // "verify"
 	topProps []string
 	wantSafety bool
